@@ -62,3 +62,10 @@ Inductive launch_order := RegisterThenRemove | RemoveThenRegister | LaunchUnknow
 (* serialization.Serializer.serialize_value: is a parameter dict that would read back as a task / enum member (a marker key with
    a truthy value) wrapped as {"_is_dict": true, "items": ..}, or written as it is? *)
 Inductive ser_mode := SerWrapsDicts | SerPlainDicts | SerUnknown.
+
+(* runners: is the dict object that holds the in-memory results only ever mutated in place (the object registered for forked
+   workers when the runner is built stays the one wait() fills), or is the attribute re-bound to a new dict at some point? *)
+Inductive view_mode := ViewInPlace | ViewRebinds | ViewUnknown.
+(* process runners: does every runner build an executor of its own (its tables start empty, its max_workers is the one the runner
+   was given), or is an executor, or one of its tables, shared between the runners of one interpreter? *)
+Inductive exec_scope := ExecPerRunner | ExecShared | ExecScopeUnknown.
